@@ -823,8 +823,9 @@ class RouterRun:
     def _probe_reg(self, st, pred_ret):
         op = st["op"]
         P = self.probes
+        known = self.hubs[st.get("h", 0) if st.get("h", 0) < len(self.hubs) else 0].model.known
         if op == "fwd":
-            if not pred_ret and st["i"] != UNKNOWN and st["o"] != UNKNOWN:
+            if not pred_ret and st["i"] in known and st["o"] in known:
                 P["duplicate_forward_rejected"] += 1
             if pred_ret and (st["i"], st["o"]) in self._deleted:
                 P["delete_then_readd"] += 1
@@ -843,10 +844,13 @@ class RouterRun:
         elif op in ("sink", "source"):
             if st["hid"] is None:
                 P["none_handle_rejected"] += 1
-            elif not pred_ret and st["n"] != UNKNOWN:
+            elif not pred_ret and st["n"] in known:
                 P["duplicate_%s_rejected" % op] += 1
-        if UNKNOWN in (st.get("i"), st.get("o"), st.get("n")):
+        names_ = [st.get(k_) for k_ in ("i", "o", "n") if st.get(k_) is not None]
+        if any(n_ not in known for n_ in names_):
             P["unknown_name_registration"] += 1
+            if any(n_ not in known and n_.strip().lower() in [k_.lower() for k_ in known] for n_ in names_):
+                P["near_miss_name_registration"] += 1
 
     _deleted = None
 
@@ -1040,9 +1044,16 @@ def gen_trace(seed):
                            "", "0"])       # the empty message and "0" are messages too (a truthiness test would drop them)
         return t
 
+    def unknown_name(h):
+        # names the hub does not know: a fresh one, or a near miss of a real one (case, surrounding whitespace)
+        if ro.random() < 0.5:
+            return UNKNOWN
+        n_ = ro.choice(hubs[h]["eps"])["n"]
+        return ro.choice([n_.lower(), n_ + " ", " " + n_, n_ + "\n", n_.lower() + " "])
+
     def pick_name(h):
         if ro.random() < p_unknown:
-            return UNKNOWN
+            return unknown_name(h)
         return ro.choice(hubs[h]["eps"])["n"]
 
     # the generator's rough idea of which endpoints have something queued, so that most polls meet data
@@ -1051,7 +1062,7 @@ def gen_trace(seed):
 
     def pick_poll(h):
         if ro.random() < p_unknown:
-            return UNKNOWN
+            return unknown_name(h)
         ready = [n for n, c in pending[h].items() if c > 0]
         if ready and ro.random() < 0.75:
             n = ro.choice(ready)
